@@ -13,10 +13,10 @@ STATUS = {
  "C07": "optimality, consistency, flag logic full; `ret_t_values`-only known finding with proved witness; sub-path clause full for simple polylines except query points within 1e-8 of each other",
  "C08": "full (incl. global Lipschitz bound and every total-length clause)",
  "C09": "full",
- "C10": "full incl. the 2.5e-5 snap bound; Jacobian composition partial (refuted at half-turns: known finding); Jacobian = derivative measured only; stated on rot(k,θ) (Euler's theorem not formalised)",
+ "C10": "full incl. the 2.5e-5 snap bound, for every proper rotation (Euler's theorem `euler_rotation` proved) ; Jacobian = derivative proved (`jacobian_is_derivative_holds`, all 27 partials); Jacobian composition partial (refuted at half-turns: known finding)",
  "C11": "full for affine matrices; unrestricted compose order refuted (known finding, proved witness)",
  "C12": "full", "C13": "full at exactly unit normals (incl. Rayleigh minimality and `tilted`)", "C14": "full", "C15": "full", "C16": "full",
- "C17": "full; percentile partial on tiny axes (known finding with proved witness); NumPy's percentile interpolation compared, not proved",
+ "C17": "full; percentile partial on tiny axes (known finding with proved witness); NumPy's linear-interpolation percentile modelled and proved to be the order statistic (between, endpoints, k-th order statistic, monotone in q, permutation invariant)",
  "C18": "full; tiny-direction rejection known finding with proved witness",
  "C19": "full (Plane theorems with a slack on the normal's length, instantiated for doubles)",
  "C20": "shape strictness: per-callable iff theorems on generated signatures (2 partial, 2 known findings); elementwise structural + row/stack tie; purity monitored only",
